@@ -482,7 +482,17 @@ def elast_oracle(case: dict, res: dict, rule: str | None = None) -> tuple[str | 
                 continue
             if got is None:
                 return f"{kind} elasticity d v{r}/d {col} is NaN/inf at a non-zero state (value {float(old)}, flux {float(flux)})", stats
-            tol = (Fraction(2) ** n * d * d + Fraction(1, 10**6)) * max(1, abs(exact))
+            if case["normalized"] or n == 0:
+                tol = (Fraction(2) ** n * d * d + Fraction(1, 10**6)) * max(1, abs(exact))
+            else:
+                # the PROVED bound is relative (C18_every_nonzero_value_relative): v = c x^(n-1) (n + e), 0 <= e <= 2^n d^2,
+                # whatever the magnitude of x; 1e-6 of the same scale for rounding (observed < 1e-9).  An absolute
+                # floor would hide a wrong derivative at a tiny value (partial derivative 2 k S = 1.2e-8 at S = 2e-9).
+                tol = (Fraction(2) ** n * d * d + Fraction(1, 10**6)) * abs(rest * old ** (n - 1))
+            if abs(old) <= TINY_LIMIT:
+                stats["tiny_cells_judged"] = stats.get("tiny_cells_judged", 0) + 1
+                if n != 1 and n != 0:
+                    stats["tiny_cells_order_ne_1"] = stats.get("tiny_cells_order_ne_1", 0) + 1
             if abs(_F(got) - exact) > tol:
                 what = f"kinetic order {n}" if case["normalized"] else f"partial derivative {float(deriv)}"
                 return (f"{kind} elasticity of v{r} w.r.t. {col} is {got}, expected {what} "
@@ -758,6 +768,75 @@ def corr_file(var_cases: list[str], par_cases: list[str], resp_cases: list[str])
 
 _DYADIC_D = [2.0**-10, 2.0**-7, 2.0**-4]
 
+# tiny but NON-ZERO values (3rd pass): powers of two 2^-11 .. 2^-40 (exactly representable; most of them below 1e-8, the
+# magnitude at which a "close to zero" test would start to treat a nanomolar concentration like zero)
+TINY_LIMIT = Fraction(1, 2**10)
+_TINY_EXPONENTS = list(range(11, 27)) + 3 * list(range(27, 41))
+
+
+def tiny_value(rng) -> float:
+    return 2.0 ** -rng.choice(_TINY_EXPONENTS) * rng.choice([1, 1, 1, -1])
+
+
+def gen_tiny_case(rng, exact: bool) -> dict:
+    """An elasticity case in which a scanned variable / parameter has a tiny non-zero value and enters some rate law
+    with kinetic order 2 or 3 (the scaled elasticity is the order whatever the magnitude -- C18_scaled_coefficient_scale_free;
+    the unscaled one is n c x^(n-1) up to the RELATIVE error 2^n d^2 -- C18_every_nonzero_value_relative)."""
+    kind = rng.choice(["var", "par"])
+    normalized = rng.random() < 0.5
+    nv, npar = rng.randint(1, 3), rng.randint(1, 3)
+    vs = [f"x{i}" for i in range(nv)]
+    ps = [f"k{i}" for i in range(npar)]
+    target = rng.choice(vs if kind == "var" else ps)
+    if exact:
+        pool = [0.5, 1.0, 2.0, 4.0, -1.0, -2.0] if normalized else [-3.0, -2.0, -1.0, 1.0, 2.0, 3.0, 4.0, 0.5, 1.5]
+        d: float | None = rng.choice(_DYADIC_D)
+    else:
+        pool = None
+        d = None if rng.random() < 0.7 else rng.choice([1e-3, 1e-5, 2.0**-10])
+
+    def ordinary() -> float:
+        if pool is not None:
+            return rng.choice(pool)
+        return round(rng.uniform(0.2, 3.0), 3) * rng.choice([1, 1, 1, -1])
+
+    def val(name: str) -> float:
+        if name == target or rng.random() < 0.25:
+            return tiny_value(rng)
+        return ordinary()
+
+    net_vars = {v: val(v) for v in vs}
+    net_pars = {p: val(p) for p in ps}
+    # first reaction: the target with order 2 or 3 (plus a rate constant / one more factor), then random ones
+    n_t = rng.choice([2, 2, 3])
+    first = [(target, n_t)]
+    others = [a for a in vs + ps if a != target]
+    if others and rng.random() < 0.8:
+        first.insert(0, (rng.choice(others), 1))
+    rxns = [first]
+    for _ in range(rng.randint(0, 3)):
+        names = [rng.choice(ps)] + [rng.choice(vs + vs + ps) for _ in range(rng.randint(0, 2))]
+        fs, total = [], 0
+        for a in names:
+            n = min(rng.choice([0, 1, 1, 2, 2, 3]), 4 - total)
+            total += n
+            fs.append((a, n))
+        rxns.append(fs)
+    rng.shuffle(rxns)
+    net = {"vars": net_vars, "pars": net_pars, "rxns": rxns}
+    names = vs if kind == "var" else ps
+    to_scan = None
+    if rng.random() < 0.3:
+        rest = [a for a in names if a != target]
+        to_scan = [target] + rng.sample(rest, rng.randint(0, len(rest)))
+        rng.shuffle(to_scan)
+    variables = None
+    if rng.random() < 0.35:
+        # a user-supplied state: other tiny values than the model's own
+        variables = {v: (tiny_value(rng) if (v == target or rng.random() < 0.25) else ordinary()) for v in vs}
+    return {"kind": kind, "net": net, "to_scan": to_scan, "variables": variables, "time": rng.choice([0, 0, 1.5]),
+            "normalized": normalized, "d": d, "tiny": True}
+
 
 def gen_elast_case(rng, exact: bool) -> dict:
     kind = rng.choice(["var", "par"])
@@ -855,7 +934,10 @@ def check(run: Run) -> None:
         "negative / fractional / zero values), variable and parameter elasticities, scaled and unscaled, explicit `variables`, "
         "subsets of to_scan, unknown names; dyadic displacement for the exact in-Coq comparison, default 1e-4 and other "
         "displacements for the analytic oracle; power-law chains, branch points, conserved cycles and chains with a zero-valued "
-        "scanned parameter for response coefficients (sequential with recorded trace, parallel). A case is non-trivial if some scanned quantity has kinetic order >= 1 in some reaction or the call is refused; "
+        "scanned parameter for response coefficients (sequential with recorded trace, parallel); a stream of TINY non-zero values "
+        "(+-2^-11 .. 2^-40, mostly below 1e-8) for a scanned variable / parameter that enters a rate law with kinetic order 2 or 3, "
+        "scaled and unscaled, model state and user-supplied `variables`, dyadic displacement (exact in-Coq comparison) and the default "
+        "1e-4 (oracle with the proved RELATIVE bound 2^n d^2). A case is non-trivial if some scanned quantity has kinetic order >= 1 in some reaction or the call is refused; "
         "distinct by content"
     )
     proofs_ok = run.check_proofs(AREA, PROPS)
@@ -888,7 +970,7 @@ def check(run: Run) -> None:
     par_coq: list[tuple[str, dict]] = []
     n_exact = 2400 if thorough else 500
     n_float = 1500 if thorough else 300
-    cells = zero_cells = discarded = undefined = zero_judged = 0
+    cells = zero_cells = discarded = undefined = zero_judged = n_tiny_viol = 0
     rule = expected_quot()
     run.coverage["expected_displacement_rule"] = rule
     for i in range(n_exact + n_float):
@@ -912,6 +994,36 @@ def check(run: Run) -> None:
                 continue
             (var_coq if case["kind"] == "var" else par_coq).append((coq_elast_case(case, res), case))
         if i < 2:
+            run.sample({"case": case, "out": res["out"]})
+
+    # ---- tiny non-zero values (own random stream, so that the cases above stay the same) ------------
+    trng = common.rng_for(run.seed, "c18-tiny")
+    n_tiny_exact = 900 if thorough else 240
+    n_tiny_float = 600 if thorough else 160
+    tiny_judged = tiny_ne1 = 0
+    for i in range(n_tiny_exact + n_tiny_float):
+        exact = i < n_tiny_exact
+        case = gen_tiny_case(trng, exact)
+        res = run_elast(case)
+        bump(f"tiny/{case['kind']}/{'exact' if exact else 'float'}/{'scaled' if case['normalized'] else 'unscaled'}")
+        bump("outcome/" + res["out"][0])
+        run.count_case(("elast", case), nontrivial=True)
+        bad, st = elast_oracle(case, res, rule)
+        cells += st["cells"]
+        zero_cells += st["zero_guard_cells"]
+        undefined += st["undefined_cells"]
+        zero_judged += st["zero_cells_judged"]
+        tiny_judged += st.get("tiny_cells_judged", 0)
+        tiny_ne1 += st.get("tiny_cells_order_ne_1", 0)
+        if bad and n_tiny_viol < 3:
+            n_tiny_viol += 1
+            run.violation(bad, {"kind": "elast", "case": case})
+        if exact:
+            if not st["exact_ok"]:
+                discarded += 1
+                continue
+            (var_coq if case["kind"] == "var" else par_coq).append((coq_elast_case(case, res), case))
+        if i < 1:
             run.sample({"case": case, "out": res["out"]})
 
     # ---- response coefficients ---------------------------------------------------------
@@ -968,6 +1080,7 @@ def check(run: Run) -> None:
     run.coverage["oracle"] = {"elasticity_cells_judged": cells - zero_cells - undefined, "cells_in_zero_guard": zero_cells,
                               "cells_scaled_derivative_undefined": undefined, "zero_value_cells_judged": zero_judged,
                               "exact_cases_discarded_not_binary64_exact": discarded,
+                              "tiny_value_cells_judged": tiny_judged, "tiny_value_cells_with_order_ge_2": tiny_ne1,
                               "response_cells_judged": rcells - rnan, "response_cells_nan": rnan}
 
     # ---- correspondence inside Coq -------------------------------------------------------------
